@@ -37,9 +37,10 @@ type Op struct {
 	// -1 = no level given (default of the operation).
 	Level int `json:"level"`
 	// Unknown != "": the call names this (non-existent) level instead.
-	Unknown string   `json:"unknown,omitempty"`
-	Lines   []string `json:"lines,omitempty"` // command / config lines
-	Inter   string   `json:"inter,omitempty"` // confirm | hidden
+	Unknown   string   `json:"unknown,omitempty"`
+	NewParent int      `json:"new_parent,omitempty"` // kind reparent: Level moves under this level
+	Lines     []string `json:"lines,omitempty"`      // command / config lines
+	Inter     string   `json:"inter,omitempty"`      // confirm | hidden
 }
 
 // Sess is a complete case descriptor.
@@ -66,6 +67,12 @@ type Sess struct {
 	Seg        devsim.Seg `json:"seg"`
 	Rejected   int        `json:"rejected"` // candidates the generator threw away (preconditions)
 	Fail       *FailSpec  `json:"fail,omitempty"`
+	// Group: the case consists of these sessions (same level names and patterns, different trees), run in
+	// one process "sequential" or "concurrent" (all drivers open before any is used).
+	Group     []Sess `json:"group,omitempty"`
+	GroupMode string `json:"group_mode,omitempty"`
+	// AltParents: parent vectors of the other trees over the same labels (observation only).
+	AltParents [][]int `json:"alt_parents,omitempty"`
 }
 
 // FailSpec (failed-hop family): during operation At the device executes hop Hop of the call's path
@@ -913,6 +920,171 @@ func genPayloadMoveCase(r *rand.Rand) Sess {
 	return s
 }
 
+// reshape returns a different tree over the same labels with the same root.
+func reshape(r *rand.Rand, parent []int, how string) []int {
+	n := len(parent)
+	q := append([]int(nil), parent...)
+	root := 0
+	for i, p := range parent {
+		if p < 0 {
+			root = i
+		}
+	}
+	var rest []int
+	for i := range parent {
+		if i != root {
+			rest = append(rest, i)
+		}
+	}
+	isLeaf := func(x int) bool {
+		for _, p := range parent {
+			if p == x {
+				return false
+			}
+		}
+		return true
+	}
+	switch how {
+	case "reparented-leaf":
+		var leaves []int
+		for _, x := range rest {
+			if isLeaf(x) {
+				leaves = append(leaves, x)
+			}
+		}
+		x := leaves[r.Intn(len(leaves))]
+		for {
+			p := r.Intn(n)
+			if p != x && p != parent[x] {
+				q[x] = p
+				return q
+			}
+		}
+	case "swapped-labels":
+		a, b := rest[r.Intn(len(rest))], rest[r.Intn(len(rest))]
+		pi := func(v int) int {
+			switch v {
+			case a:
+				return b
+			case b:
+				return a
+			}
+			return v
+		}
+		for v, p := range parent {
+			if p < 0 {
+				q[pi(v)] = -1
+			} else {
+				q[pi(v)] = pi(p)
+			}
+		}
+		return q
+	case "chain":
+		prev := root
+		for _, i := range r.Perm(len(rest)) {
+			q[rest[i]] = prev
+			prev = rest[i]
+		}
+		return q
+	}
+	for _, x := range rest { // star
+		q[x] = root
+	}
+	return q
+}
+
+func (s *Sess) randomOps(r *rand.Rand, k int) {
+	n := len(s.Levels)
+	for ; k > 0; k-- {
+		if r.Intn(12) == 0 {
+			s.Ops = append(s.Ops, s.unknownOp(r))
+		} else {
+			s.Ops = append(s.Ops, s.opTowards(r, r.Intn(n)))
+		}
+	}
+}
+
+// genShapesCase: 2-3 sessions over identical level names/prompts/patterns/commands but different trees.
+func genShapesCase(r *rand.Rand) Sess {
+	n := 3 + r.Intn(4)
+	variant := []string{"plain", "auth", "overlap", "plain"}[r.Intn(4)]
+	base := newSess(r, "shapes", variant, randomTree(r, n, []string{"random", "caterpillar", "chain", "star"}[r.Intn(4)]), r.Intn(2) == 0)
+	// every non-root level needs its transition commands in every shape: the root stays the root
+	g := Sess{Kind: "shapes", Variant: variant, GroupMode: []string{"sequential", "sequential", "concurrent"}[r.Intn(3)]}
+	shapes := [][]int{parentsOf(base.Levels)}
+	var hows []string
+	for len(shapes) < 2+r.Intn(2) {
+		how := []string{"reparented-leaf", "reparented-leaf", "swapped-labels", "chain", "star"}[r.Intn(5)]
+		q := reshape(r, shapes[0], how)
+		dup := false
+		for _, o := range shapes {
+			dup = dup || fmt.Sprint(o) == fmt.Sprint(q)
+		}
+		if dup {
+			continue
+		}
+		shapes = append(shapes, q)
+		hows = append(hows, how)
+	}
+	g.Shape = strings.Join(hows, "+")
+	for i, q := range shapes {
+		m := base
+		m.Levels = append([]Level(nil), base.Levels...)
+		for k := range m.Levels {
+			m.Levels[k].Parent = q[k]
+		}
+		m.Ops = nil
+		m.Start, m.Default = r.Intn(n), r.Intn(n)
+		m.Seg.Seed = r.Int63()
+		for j, o := range shapes {
+			if j != i {
+				m.AltParents = append(m.AltParents, o)
+			}
+		}
+		if n <= 4 && r.Intn(2) == 0 {
+			for _, t := range eulerTour(r, n) {
+				m.Ops = append(m.Ops, m.opTowards(r, t))
+			}
+		} else {
+			m.randomOps(r, 6+r.Intn(6))
+		}
+		g.Group = append(g.Group, m)
+	}
+	return g
+}
+
+// genReparentCase: one driver; mid-session a level moves under another parent (device and level
+// definition) and UpdatePrivileges is called; possibly twice.
+func genReparentCase(r *rand.Rand) Sess {
+	n := 3 + r.Intn(4)
+	variant := []string{"plain", "auth", "overlap", "plain"}[r.Intn(4)]
+	s := newSess(r, "reparent", variant, randomTree(r, n, []string{"random", "caterpillar", "chain", "star"}[r.Intn(4)]), r.Intn(2) == 0)
+	cur := parentsOf(s.Levels)
+	s.AltParents = [][]int{append([]int(nil), cur...)}
+	s.randomOps(r, 2+r.Intn(4))
+	for k := 1 + r.Intn(2); k > 0; k-- {
+		// a non-root level moves under a level outside its own subtree
+		for {
+			x, p := r.Intn(n), r.Intn(n)
+			if cur[x] < 0 || p == x || p == cur[x] {
+				continue
+			}
+			inSub := false
+			for v := p; v >= 0; v = cur[v] {
+				inSub = inSub || v == x
+			}
+			if inSub {
+				continue
+			}
+			cur[x] = p
+			s.Ops = append(s.Ops, Op{Kind: "reparent", Level: x, NewParent: p})
+			break
+		}
+		s.randomOps(r, 5+r.Intn(5))
+	}
+	return s
+}
+
 func gen(tier string, seed int64) []mon.Case {
 	var cs []mon.Case
 	maxN := 4
@@ -921,7 +1093,7 @@ func gen(tier string, seed int64) []mon.Case {
 	if tier == "thorough" {
 		maxN = 5
 		variants = []string{"plain", "auth", "overlap", "auth+overlap"}
-		nBig, nSeq = 400, 4000
+		nBig, nSeq = 300, 3000
 	}
 	idx := 0
 	rng := func() *rand.Rand {
@@ -977,8 +1149,18 @@ func gen(tier string, seed int64) []mon.Case {
 	for i := 0; i < nFail; i++ {
 		cs = append(cs, mon.MkCase(fmt.Sprintf("c04/failhop-%04d", i), genFailHopCase(rng())))
 	}
+	nShapes, nRep := 30, 20
+	if tier == "thorough" {
+		nShapes, nRep = 300, 200
+	}
 	for i := 0; i < nMove; i++ {
 		cs = append(cs, mon.MkCase(fmt.Sprintf("c04/paymove-%04d", i), genPayloadMoveCase(rng())))
+	}
+	for i := 0; i < nShapes; i++ {
+		cs = append(cs, mon.MkCase(fmt.Sprintf("c04/shapes-%04d", i), genShapesCase(rng())))
+	}
+	for i := 0; i < nRep; i++ {
+		cs = append(cs, mon.MkCase(fmt.Sprintf("c04/reparent-%04d", i), genReparentCase(rng())))
 	}
 	return cs
 }
